@@ -12,6 +12,11 @@ CHECKS = {
          "Complete enumeration of a finite space: every entry of a decode table transcribed from the RISC-V manual (mnemonic x operand form x 7 registers per position x boundary immediates; ~13k texts) is parsed by the real parser and compared with the manual's meaning - structurally, or, for pseudo-instructions, by executing both on every pair of a 66-value boundary grid; every foldable mnemonic x every grid pair goes through the real MathOp::operate in a release and an overflow-checked build. Model traces (expected instruction / ALU result) are compared 1:1 with the implementation.",
          "Trusted: the hand-transcribed decode table and the two cross-checked reference ALUs; register/immediate choices are representatives, not all 32^3 combinations.",
          "DESIGN.md 3 C08"),
+
+ "C17": ("bounded-exhaustive enumeration of literal spellings against independent literal semantics",
+         "Complete enumeration of a finite family: ~8000 spellings (every boundary value 2^k, 2^k+-1 for k<=33 and bit patterns x decimal/hex/binary notation x sign x letter case x leading zeros, every printable ASCII character literal and escape, malformed spellings) x 4 operand contexts (li, lui, .word, csrr), each through the real lexer+parser and, for li/lui, the resulting Constant fact of the value analysis, in a release and an overflow-checked build; acceptance, value and error location are compared with literal semantics written in the harness.",
+         "Trusted: the harness's literal semantics (accept iff well-formed and -2^31 <= v <= 2^32-1; value v mod 2^32; lui 0..2^20-1). Values between the boundary points are not enumerated. Leading-zero decimals, negative lui operands and CSR numbers > 4095 get no verdict.",
+         "DESIGN.md 3 C17"),
 }
 
 ALL = ["C%02d" % i for i in range(1, 20)]
